@@ -554,7 +554,7 @@ func mutants(w *W, f func(ss []sym)) {
 // two commands: a body is scanned for expansions according to ITS OWN delimiter.  valid selects the sentences the
 // grammar model accepts (C02) or rejects (C03).
 func herePairs(w *W, valid bool) {
-	hs := []string{"<<E", "<<'E'", "<<-E", "<<F", "<<G", "<<'G'", "<<H"}
+	hs := []string{"<<E", "<<'E'", "<<-E", "<<F", "<<G", "<<'G'", "<<H", "<<I"}
 	for _, h1 := range hs {
 		for _, h2 := range hs {
 			for _, t := range [][]string{{"a", h1, h2}, {"a", h1, "|", "b", h2}, {"a", h1, ";", "b", h2}, {"a", h1, "\n", "b", h2}, {"{", "a", h1, ";", "}", h2}, {"a", h1, "$(c)", h2}} {
